@@ -114,3 +114,15 @@ let () =
   register "finalize_ok" (function
     | L [ _; rs ] -> "{\"r\":\"ok\",\"finalize_ok\":" ^ (if finalize_ok (as_pops rs) then "true" else "false") ^ "}"
     | _ -> raise (Bad "finalize_ok"))
+
+(* C04: multi-line string literals: (mstr q indent (cps of the string) (cps of a literal)) *)
+let () =
+  register "mstr" (function
+    | L [ _; q; ind; L cps; L lit ] ->
+        let q = n_of_int (as_int q) in
+        let s = List.map (fun c -> n_of_int (as_int c)) cps in
+        let lit = List.map (fun c -> n_of_int (as_int c)) lit in
+        "{\"r\":\"ok\",\"exact\":" ^ (if multi_exact s then "true" else "false")
+        ^ ",\"printed\":" ^ jtext (print_multi q (nat_of_int (as_int ind)) s)
+        ^ ",\"read_lit\":" ^ jtext (read_multi lit) ^ "}"
+    | _ -> raise (Bad "mstr"))
